@@ -2109,14 +2109,14 @@ impl Parser {
         }
 
         if real_ty.is_class() {
-            // an alias of a class is also a name for its constructor: like a class name it cannot
-            // take the place of a variable of this scope, and it cannot be reassigned
+            // like a class name, the alias of a class cannot take the place of a variable of this scope
             if let Some(existing) = input.user_data().get_ident_from_name_local(ident.name()) {
                 return Err(new_err(ident_span, &input.user_data().get_source_file_name(), format!("This name is already in scope (Hint: `{}: {} = ...` was declared somewhere above)", ident.name(), existing.ty().unwrap())));
             }
 
-            ident.mark_const();
-            ident.link_force_no_inherit(input.user_data(), real_ty.clone())?;
+            // The alias is the name of a TYPE. It used to be entered as a variable of the class type as well,
+            // but nothing creates that variable at run time: `x = 5`, then `type x Dog` in a nested block made
+            // every later `x` a `Dog` for the type checker while the program went on with the 5.
         }
 
         let ty = TypeLayout::Alias(ident.name().to_owned(), Box::new(real_ty));
